@@ -61,6 +61,7 @@ func NewSecure[Pub any](m map[string]DynSecureSwarm[Pub]) p2p.SecureSwarm[Addr, 
 func NewSecureAsk[Pub any](m map[string]DynSecureAskSwarm[Pub]) p2p.SecureAskSwarm[Addr, Pub] {
 	ms := newMultiSwarm(convertSecureAsk(m))
 	ma := newMultiAsker(map[string]p2p.AskSwarm[p2p.Addr]{})
+	ms.asker = ma
 	msec := multiSecure[Pub]{}
 
 	for name, s := range m {
@@ -86,6 +87,9 @@ type multiSwarm struct {
 	addrSchema AddrSchema
 	swarms     map[string]DynSwarm
 	tells      swarmutil.TellHub[Addr]
+	// asker is the ask half of a swarm built by NewSecureAsk, nil otherwise.
+	// Close closes its hub as well.
+	asker *multiAsker
 }
 
 func newMultiSwarm(m map[string]DynSwarm) *multiSwarm {
@@ -168,6 +172,9 @@ func (mt *multiSwarm) Close() error {
 		}
 	}
 	mt.tells.CloseWithError(p2p.ErrClosed)
+	if mt.asker != nil {
+		mt.asker.asks.CloseWithError(p2p.ErrClosed)
+	}
 	return err
 }
 
